@@ -1239,7 +1239,7 @@ class ReferenceResolver:
         # A reference resolved with the RREL flag '+p' holds a proxy: the
         # unresolved references are those of the proxied object.
         obj = getattr(obj, "_tx_obj", obj)
-        if get_model(obj) != self.model:
+        if get_model(obj) is not self.model:
             return get_model(obj)._tx_reference_resolver.has_unresolved_crossrefs(obj)
         else:
             for crossref_obj, attr, _ in self.parser._crossrefs:
@@ -1265,7 +1265,7 @@ class ReferenceResolver:
         # -------------------------
         default_scope = DefaultScopeProvider()
         for obj, attr, crossref in current_crossrefs:
-            if get_model(obj) == self.model:
+            if get_model(obj) is self.model:
                 attr_value = getattr(obj, attr.name)
                 attr_refs = [
                     obj.__class__.__name__ + "." + attr.name,
